@@ -30,7 +30,7 @@ def sh(cmd, cwd=None, env=None, timeout=3000):
 def one(name, slot, all_checks):
     sd = core.VERIF / "seeded" / name
     meta = json.load(open(sd / "meta.json"))
-    prop = meta["property"]
+    prop = meta.get("caught_by_check", meta["property"])  # (s7-C01, s7-C14: the change is caught by a neighbouring property's check)
     wt = os.path.join(ROOT, f"wt{slot}")
     sh(["git", "-C", wt, "reset", "-q", "--hard"])  # also clears a half-merged state left by a patch that did not apply
     sh(["git", "-C", wt, "clean", "-fdq"])
